@@ -34,7 +34,7 @@ FILEMAP = {
     "iv_main_posix.c": ["C07", "C18", "C04"],
     "iv_event.c": ["C08", "C14", "C07"],
     "iv_event_raw_posix.c": ["C09", "C15", "C18"],
-    "iv_signal.c": ["C10", "C14"],
+    "iv_signal.c": ["C10", "C14", "C19"],
     "iv_wait.c": ["C11", "C14", "C19"],
     "iv_work.c": ["C12", "C13", "C14"],
     "iv_thread_posix.c": ["C13", "C18"],
